@@ -129,7 +129,7 @@ Merged(out) ==
   ELSE <<out[1]>> \o Merged(Tail(out))
 \* (whitespace at the edges of a piece of text is not observable: pieces are compared cleaned, empty ones dropped)
 StreamView(out) ==
-  LET mm == Merged(out)
+  LET mm == Merged(SelectSeq(out, LAMBDA it : it.k # "commit"))
       cl == [i \in 1..Len(mm) |-> IF mm[i].k \in {"tag", "t"} THEN [k |-> mm[i].k, v |-> OS!CleanWs(mm[i].v)] ELSE mm[i]] IN
   SelectSeq(cl, LAMBDA it : it.k # "t" \/ it.v # <<>>)
 SaveView(m) ==
